@@ -17,7 +17,8 @@
      run fuel env code src st   Parse's resets + RunAfterParsed on a persistent VM state
 
    OUTCOMES  Fin / Fail (ctx.Error set; class of the message) / Panic (Go would panic here today) /
-   OutOfFuel (for every fuel = the real code does not terminate: hang or fatal stack overflow) /
+   OutOfFuel (for every fuel = the real code does not terminate / recurses until the goroutine stack
+   is exhausted: only loops and recursion of the SCRIPT are left, all counted by NumOpCount) /
    Unsupported (outside the modelled fragment; see the list below).
 
    ILL-FORMED CODE (left over from abandoned parser alternatives) is an ERROR since the repair
@@ -32,7 +33,6 @@
    operand (jmp je jne je.dup push.arr push.dict invoke popn ld.fs: IntType; push.str ld ld.d ld.raw store
    store.local attr.get attr.set: string; push.func push.computed: *VMValue; mark.detail: BufferSpan; st.mod:
    StInfo — for je/je.dup/jne only when the jump is taken); a jump that makes opIndex negative (e.code[opIndex]);
-   st.mod with Op "-" on a non-number while a CallbackSt is installed (OpNegation() is nil, then .Clone());
    push.def_expr whose last span lies outside the source text; stackPush at top = 1000 (unreachable: the
    loop head stops there); jumping beyond the end simply ends the run.
 
@@ -49,8 +49,6 @@
      "operand"          push.int whose operand is not an IntType (parser never emits it)
      "uninit slot"      block.pop / ld.fs raising top over a never-written slot (unreachable from top = 0)
      "dice count"       more than dice_cap dice in one roll (model cost only)
-     "keep loop"        Array.kh/kl with a count above keep_cap: Go spins `for i < pickNum` unbudgeted
-                        (a real hang, reported as a defect); the model refuses instead of answering
      "tostring fuel"    cannot happen (fuel = heap size + 2)
    NOT MODELLED AT ALL: detail texts (DetailSpans contents, makeDetailStr — only len(details) and the
    last span matter for panics), hooks and global-name callbacks (absent in the harness), custom dice,
@@ -331,7 +329,6 @@ Definition ops_add (c : config) (ops count : Z) : Z * bool :=
 
 (* ------------------------------------------------------------------ small helpers *)
 Definition dice_cap : Z := 100000.
-Definition keep_cap : Z := 1000000.
 Definition roll_fuel : nat := 400.
 
 Definition builtin_names : list string :=
@@ -591,17 +588,18 @@ Section Ops.
     end.
 
   (* ---- AttrGet: None = nil ("不支持的类型：当前变量无法用.来取属性") *)
-  Fixpoint proto_walk (n : nat) (cur : N) (name : string) (h : heap) : option (option value) :=
+  (* for depth := 0; depth < 64; depth++ { follow __proto__ } : at most 64 links, then "not found" *)
+  Fixpoint proto_walk (n : nat) (cur : N) (name : string) (h : heap) : option value :=
     match n with
-    | O => None                                         (* Go loops forever on a __proto__ cycle *)
+    | O => None
     | S n' =>
       match mget "__proto__" (get_map cur h) with
       | Some (VDict p) =>
         match mget name (get_map p h) with
-        | Some x => Some (Some x)
+        | Some x => Some x
         | None => proto_walk n' p name h
         end
-      | _ => Some None
+      | _ => None
       end
     end.
 
@@ -621,10 +619,9 @@ Section Ops.
       match mget name (get_map id (w_heap w)) with
       | Some x => ROk (Some x) w
       | None =>
-        match proto_walk rfuel id name (w_heap w) with
-        | None => RFuel
-        | Some (Some x) => ROk (Some x) w
-        | Some None => ROk (attr_fallback v name) w
+        match proto_walk 64 id name (w_heap w) with
+        | Some x => ROk (Some x) w
+        | None => ROk (attr_fallback v name) w
         end
       end
     | VThis => rbind (load_local name w) (fun x w' => ROk (Some x) w')
@@ -831,8 +828,7 @@ Section Ops.
       else if mem_s name ["Array.kh"; "Array.kl"] then
         match a0 with
         | VInt num =>
-          if keep_cap <? num then RUnsup "keep loop"
-          else match keep_sum (String.eqb name "Array.kh") num (get_arr self_arr (w_heap w)) with
+          match keep_sum (String.eqb name "Array.kh") num (get_arr self_arr (w_heap w)) with
                | Some r => ROk (VInt r) w
                | None => RUnsup "float sum"
                end
@@ -885,6 +881,45 @@ Section Ops.
         end
       else RUnsup "unknown native".
 End Ops.
+
+(* ------------------------------------------------------------------ budgeted WoD / Double Cross rounds *)
+(* rollWoD / rollDoubleCross with budget = numOpCountAdd: at the START of every round (the first
+   included) the round's pool is charged; when the limit is exceeded the rounds stop and the VM
+   returns "允许算力上限".  One round = Dice.wod_round / Dice.dc_round (texts not needed here).
+   n bounds the number of rounds: without a limit an exploding pool in max mode never ends. *)
+Inductive rounds_res :=
+| RDone (total : Z) (ops : Z) (s : pcg)
+| ROver (ops : Z) (s : pcg)
+| RNoFuel.
+
+Fixpoint wod_budget (n : nat) (c : config) (addLine points threshold : Z) (isGE : bool) (mode : Z)
+         (pool succ ops : Z) (s : pcg) : rounds_res :=
+  match n with
+  | O => RNoFuel
+  | S n' =>
+    let '(ops', over) := ops_add c ops pool in
+    if over then ROver ops' s
+    else match wod_round pcg_next roll_fuel (Z.to_nat pool) addLine points threshold isGE mode false (0, 0, []) s with
+         | Roll.OutOfFuel => RNoFuel
+         | Roll.Done ((sc, add, _), s1) =>
+           if 0 <? add then wod_budget n' c addLine points threshold isGE mode add (succ + sc) ops' s1
+           else RDone (succ + sc) ops' s1
+         end
+  end.
+
+Fixpoint dc_budget (n : nat) (c : config) (addLine points mode : Z) (pool result ops : Z) (s : pcg) : rounds_res :=
+  match n with
+  | O => RNoFuel
+  | S n' =>
+    let '(ops', over) := ops_add c ops pool in
+    if over then ROver ops' s
+    else match dc_round pcg_next roll_fuel (Z.to_nat pool) addLine points mode false (0, 0, []) s with
+         | Roll.OutOfFuel => RNoFuel
+         | Roll.Done ((mx, add, _), s1) =>
+           if 0 <? add then dc_budget n' c addLine points mode add (wrap64 (result + mx)) ops' s1
+           else RDone (wrap64 (result + mx)) ops' s1
+         end
+  end.
 
 (* ------------------------------------------------------------------ one instruction *)
 Inductive sresult :=
@@ -1044,7 +1079,7 @@ Section Step.
         end))
     | OpAttrGet =>
       with_pop fr (fun obj fr1 => arg_str o (fun name =>
-        lift (attr_get call rfuel E obj name w) fr1 (fun r w1 =>
+        lift (attr_get call E obj name w) fr1 (fun r w1 =>
           match r with
           | None => SFail EType (mk fr1 w1)
           | Some v => do_push v fr1 w1
@@ -1218,10 +1253,11 @@ Section Step.
       with_pop fr (fun v fr1 => with_int v fr1 w (fun addLine =>
         let x := fr_wod fr1 in
         if negb (wod_check addLine (w_pool x) (w_points x) (w_threshold x)) then SFail EDice (mk fr1 w)
-        else match roll_wod pcg_next rfuel roll_fuel addLine (w_pool x) (w_points x) (w_threshold x) (w_isge x)
-                            (roll_mode cfg) (w_pcg w) with
-             | Roll.OutOfFuel => SFuel
-             | Roll.Done ((num, _, _, _), s) => dice_result num fr1 (w_set_pcg w s)
+        else match wod_budget rfuel cfg addLine (w_points x) (w_threshold x) (w_isge x) (roll_mode cfg)
+                              (w_pool x) 0 (c_ops (w_self w)) (w_pcg w) with
+             | RNoFuel => SFuel
+             | ROver ops s => SFail EBudget (mk fr1 (w_set_pcg (w_set_self_ops w ops) s))
+             | RDone num ops s => dice_result num fr1 (w_set_pcg (w_set_self_ops w ops) s)
              end))
     | OpDcInit => SNext (mk (fr_set_dc fr {| c_pool := 1; c_points := 10 |}) w)
     | OpDcPool =>
@@ -1234,9 +1270,10 @@ Section Step.
       with_pop fr (fun v fr1 => with_int v fr1 w (fun addLine =>
         let x := fr_dc fr1 in
         if negb (dc_check addLine (c_pool x) (c_points x)) then SFail EDice (mk fr1 w)
-        else match roll_dc pcg_next rfuel roll_fuel addLine (c_pool x) (c_points x) (roll_mode cfg) (w_pcg w) with
-             | Roll.OutOfFuel => SFuel
-             | Roll.Done ((num, _, _, _), s) => dice_result num fr1 (w_set_pcg w s)
+        else match dc_budget rfuel cfg addLine (c_points x) (roll_mode cfg) (c_pool x) 0 (c_ops (w_self w)) (w_pcg w) with
+             | RNoFuel => SFuel
+             | ROver ops s => SFail EBudget (mk fr1 (w_set_pcg (w_set_self_ops w ops) s))
+             | RDone num ops s => dice_result num fr1 (w_set_pcg (w_set_self_ops w ops) s)
              end))
 
     | OpBlockPush =>
@@ -1279,7 +1316,7 @@ Section Step.
             if String.eqb op "-" then
               match v with
               | VInt z => SNext (mk fr1 (st_log w "mod" (st_name_of nm) (VInt (wrap64 (- z))) None op text))
-              | _ => SPanic "nil pointer dereference (st.mod: OpNegation returned nil)"
+              | _ => SFail EType (mk fr1 w)               (* OpNegation() == nil: type error, return *)
               end
             else SNext (mk fr1 (st_log w "mod" (st_name_of nm) v None op text))
           else SNext (mk fr1 w)
